@@ -70,7 +70,7 @@ fn dviol(ctx: &Ctx, ft: Ft, alpha: &[f64], sym: &str, trig: &str, what: String) 
 
 fn dirichlet_one<F: DF>(ctx: &Ctx, alpha: &[f64], n: u64, seed: u64)
 where
-    Dirichlet<F>: MultiDistribution<F> + Distribution<Vec<F>> + Sync,
+    Dirichlet<F>: MultiDistribution<F> + Distribution<Vec<F>> + Send + Clone,
     rand_distr::StandardNormal: Distribution<F>,
     rand_distr::Exp1: Distribution<F>,
     rand_distr::Open01: Distribution<F>,
@@ -135,9 +135,10 @@ where
     let tol_sum = 4.0 * len as f64 * ft.eps();
     let sample_hists = |n: u64, seed: u64| -> (Vec<Hist>, Vec<(String, String)>) {
         let chunks = 32u64;
-        let parts: Vec<(Vec<Hist>, Vec<(String, String)>)> = (0..chunks)
+        let clones: Vec<(u64, Dirichlet<F>)> = (0..chunks).map(|c| (c, d.clone())).collect();
+        let parts: Vec<(Vec<Hist>, Vec<(String, String)>)> = clones
             .into_par_iter()
-            .map(|c| {
+            .map(|(c, d)| {
                 let mut hs: Vec<Hist> = stats.iter().map(|s| Hist { counts: vec![0; s.edges.len() + 1], nan: 0, n: 0, min: f64::INFINITY, max: f64::NEG_INFINITY }).collect();
                 let mut bad: Vec<(String, String)> = vec![];
                 let mut rng = VRng::from_env(hseed(&[seed, c]));
